@@ -12,6 +12,11 @@ key K; the body applies the scripted in-place mutation MUT (see MUTATIONS; `-` /
 argument before it returns.  Model line: `call K t:<fresh> TTL <tags the decorator attaches>` where the tags are
 the tag templates rendered by the harness from the arguments AS THEY WERE WHEN THE CALL WAS MADE (the key and the
 tags of a decorated call are those of the call, whatever the body does to its arguments).
+In the layout `strat` the decorated functions use the re-writing strategies `early`, `soft`, `hit`, `dynamic` (every
+decorator of cashews/wrapper/decorators.py that takes `tags=`): `call K F TTL [E]` (E = early_ttl in ticks, `early` only).
+Model lines `early K LK X TTL E TAGS`, `soft K X TTL S TAGS`, `hit K KC X TTL TAGS CACHE_HITS UPDATE_AFTER` (X = number of
+the fresh token, LK / KC = lock / counter key): the model decides from its own state whether the decorator serves the
+entry, recalculates it ahead of its deadline (a tagged RE-WRITE of a live key) or computes it anew.
 `delmatch P` uses pattern P of the layout - glob patterns with `*`, wildcard-free patterns naming one key exactly,
 and patterns matching nothing (model line: `delmatch <keys of the universe that match>`).
 TTLs / advances are ticks of 1/8 s.
@@ -47,9 +52,17 @@ class Layout:
     harness's own reading of how the documentation says they appear in keys and tags (list: items joined by ':',
     dict: 'key:value' pairs sorted by key joined by ':')."""
 
-    def __init__(self, name, templates, fields, tags_templates, regs, funcs, patterns, extra_tags=(), exact=None):
+    def __init__(self, name, templates, fields, tags_templates, regs, funcs, patterns, extra_tags=(), exact=None,
+                 direct=None):
         self.name = name
         self.templates = templates
+        # a function may carry a 4th element: the strategy of its decorator, e.g. {"kind": "early", "bg": False,
+        # "lock": <template idx of key + ":lock">} / {"kind": "soft", "soft": 8} / {"kind": "hit", "ttl": 24,
+        # "cache_hits": 3, "update_after": 2, "bg": False, "counter": <template idx of key + ":counter">}
+        self.fspec = [dict(f[3]) if len(f) > 3 else {"kind": "simple"} for f in funcs]
+        funcs = [tuple(f[:3]) for f in funcs]
+        self.lock_base = {sp["lock"]: f[0] for f, sp in zip(funcs, self.fspec) if "lock" in sp}   # lock template -> key template
+        self.direct_templates = direct    # templates whose keys the generator may write directly (None = all)
         self.keys = []  # (string, template idx, fields)
         for ti, tpl in enumerate(templates):
             names = [f for _, f, _, _ in string.Formatter().parse(tpl) if f]
@@ -86,8 +99,22 @@ class Layout:
     # -- the harness's own reading of the registry: which tags does key K get?  (independent of cashews:
     #    plain substitution of the key's own field values into the tag template)
     def expected_key_tags(self, ki: int) -> list[int]:
+        memo = self.__dict__.setdefault("_ekt", {})
+        if ki not in memo:
+            memo[ki] = self._expected_key_tags(ki)
+        return list(memo[ki])
+
+    def _expected_key_tags(self, ki: int) -> list[int]:
         _, ti, fd = self.keys[ki]
         out = []
+        if ti in self.lock_base:
+            # the lock key `<key>:lock` of an `early` function is registered for nothing, but the regular expression of
+            # its key's template takes it in (the last field swallows ':lock'): field-less tags of that template apply
+            # to it, templated ones come out as tags no key of the case carries (`foreign_tags_of_lock_keys`)
+            for tag_tpl, key_tpl in self.all_registrations():
+                if key_tpl == self.templates[self.lock_base[ti]] and "{" not in tag_tpl and self.tags.index(tag_tpl) not in out:
+                    out.append(self.tags.index(tag_tpl))
+            return sorted(out)
         for tag_tpl, key_tpl in self.all_registrations():
             if key_tpl != self.templates[ti] and key_tpl != self.keys[ki][0]:
                 continue
@@ -102,10 +129,33 @@ class Layout:
 
     def all_registrations(self):
         regs = list(self.regs)
-        for kti, tag_tpls, _ in self.funcs:
+        for (kti, tag_tpls, _), sp in zip(self.funcs, self.fspec):
             for tt in tag_tpls:
+                if "counter" in sp:      # hit / dynamic register their tags for the counter key too
+                    regs.append((tt, self.templates[sp["counter"]]))
                 regs.append((tt, self.templates[kti]))
         return regs
+
+    def key_index(self, ti: int, fd: dict) -> int:
+        for i, (_, t, f) in enumerate(self.keys):
+            if t == ti and f == fd:
+                return i
+        raise HarnessError(f"layout {self.name}: no key of template {ti} with fields {fd}")
+
+    def side_key(self, fi: int, ki: int):
+        """the lock key (early) / counter key (hit, dynamic) that goes with key `ki` of function `fi`, or None"""
+        sp = self.fspec[fi]
+        ti = sp.get("lock", sp.get("counter"))
+        return None if ti is None else self.key_index(ti, self.keys[ki][2])
+
+    def is_lock_key(self, ki: int) -> bool:
+        return self.keys[ki][1] in self.lock_base
+
+    def direct_keys(self) -> list[int]:
+        return [i for i, (_, ti, _) in enumerate(self.keys) if self.direct_templates is None or ti in self.direct_templates]
+
+    def strategy_funcs(self) -> list[int]:
+        return [fi for fi, sp in enumerate(self.fspec) if sp["kind"] != "simple"]
 
     def func_tags(self, fi: int, ki: int) -> list[int]:
         _, tag_tpls, _ = self.funcs[fi]
@@ -233,6 +283,25 @@ def make_layout(name: str) -> Layout:
                       funcs=[(0, ["cols:{cols}", "all"], ["cols"]), (0, ["cols:{cols}"], ["cols"]),
                              (1, ["all", "opts:{opts}"], ["opts"])],
                       patterns=["r:a*", "q:*", "r:*z", "r:*"])
+    if name == "strat":
+        # every decorator that takes tags= (cashews/wrapper/decorators.py: cache, early, soft, hit, dynamic), each with
+        # its own key family; the per-argument tag tg:{x} is shared by the families (same x), `all` by some of them; a
+        # plain family p:{x} is written directly (companions that may or may not keep a tag set alive).  Lock keys of
+        # early and counter keys of hit / dynamic are keys of the case too.
+        return Layout(name,
+                      ["early:v2:e:{x}", "early:v2:e:{x}:lock", "early:v2:b:{x}", "early:v2:b:{x}:lock", "soft:s:{x}",
+                       "hit:h:{x}", "hit:h:{x}:counter", "hit:g:{x}", "hit:g:{x}:counter", "dynamic:d:{x}", "dynamic:d:{x}:counter",
+                       "c:{x}", "p:{x}"],
+                      {"x": ["1", "2"]}, ["tg:{x}", "all"],
+                      regs=[("tg:{x}", "p:{x}"), ("all", "p:{x}")],
+                      funcs=[(0, ["tg:{x}", "all"], ["x"], {"kind": "early", "key": "e:{x}", "bg": False, "lock": 1}),
+                             (2, ["tg:{x}"], ["x"], {"kind": "early", "key": "b:{x}", "bg": True, "lock": 3}),
+                             (4, ["tg:{x}", "all"], ["x"], {"kind": "soft", "key": "s:{x}", "soft": 8}),
+                             (5, ["tg:{x}"], ["x"], {"kind": "hit", "key": "h:{x}", "ttl": 24, "cache_hits": 3, "update_after": 2, "bg": False, "counter": 6}),
+                             (7, ["all", "tg:{x}"], ["x"], {"kind": "hit", "key": "g:{x}", "ttl": 16, "cache_hits": 2, "update_after": 0, "bg": True, "counter": 8}),
+                             (9, ["tg:{x}"], ["x"], {"kind": "dynamic", "key": "d:{x}", "ttl": 800, "cache_hits": 3, "update_after": 1, "bg": True, "counter": 10}),
+                             (11, ["tg:{x}"], ["x"], {"kind": "simple", "key": "c:{x}"})],
+                      patterns=["early:*", "hit:h:*", "hit:*:1", "p:*", "soft:s:2*"], exact=[0, 8, 10, 24], direct=[12])
     if name.startswith("big:"):
         n = int(name.split(":")[1])
         return Layout(name, ["b:{i}", "o:{i}"], {"i": [str(i) for i in range(n)]}, ["big", "odd"],
@@ -265,6 +334,10 @@ def show_val(v) -> str:
         return f"i:{v}"
     if isinstance(v, str) and v.startswith("t") and v[1:].isdigit():
         return f"t:{v[1:]}"
+    if (isinstance(v, list) and len(v) == 2 and isinstance(v[0], vtime._RealDatetime) and isinstance(v[1], str)
+            and v[1].startswith("t") and v[1][1:].isdigit()):
+        # what early / soft store: [early / soft deadline, result] -> l:<deadline in ticks>+<token number>
+        return f"l:{round((v[0].timestamp() - vtime.BASE) / vtime.TICK)}+{v[1][1:]}"
     return f"?{type(v).__name__}:{v!r}"
 
 
@@ -306,6 +379,9 @@ class Runner:
         self.next_mut = "-"
         self.registered = True                  # every tag used so far was registered for its key
         self.next_ttl = None
+        self.next_early = None
+        self.purge_task = None
+        self.refreshed: dict[int, dict] = {}    # key -> what its entry / tag sets looked like before its latest write, if that was a decorator's re-write of a live entry
 
     def _bump(self, k: str, n: int = 1):
         self.stats[k] = self.stats.get(k, 0) + n
@@ -351,12 +427,19 @@ class Runner:
         def ttl_fn(*args, **kwargs):
             return runner.next_ttl
 
-        for kti, tag_tpls, argnames in lay.funcs:
-            self.funcs.append(self._make_func(cache, lay.templates[kti], tag_tpls, argnames, ttl_fn))
+        def early_fn(*args, **kwargs):
+            return runner.next_early
+
+        for (kti, tag_tpls, argnames), spec in zip(lay.funcs, lay.fspec):
+            if spec["kind"] == "simple":
+                self.funcs.append(self._make_func(cache, lay.templates[kti], tag_tpls, argnames, ttl_fn))
+            else:
+                self.funcs.append(self._make_strategy_func(cache, lay.templates[kti], tag_tpls, spec, ttl_fn, early_fn))
         await cache.init()
         self.cache = cache
         if self.cfg["purge"]:
             purge_task = getattr(self.backend, "_Memory__remove_expired_task")
+            self.purge_task = purge_task
             orig_get = self.backend.get
 
             async def get(key, default=None):
@@ -370,6 +453,10 @@ class Runner:
         # the registry as the code computes it vs. the harness's own reading of the templates
         for i, (k, _, _) in enumerate(lay.keys):
             got = sorted(lay.tags.index(t) if t in lay.tags else -1 for t in cache.get_key_tags(k))
+            if lay.is_lock_key(i) and -1 in got:
+                # `<key>:lock` read through the key's own template: the templated tags come out as tags of no key
+                self._bump("foreign_tags_of_lock_keys(not judged)")
+                got = [j for j in got if j != -1]
             if got != lay.expected_key_tags(i):
                 self.eff.append((f"?keytags {i}", f"get_key_tags({k!r}) -> {cache.get_key_tags(k)!r}, expected tags "
                                                   f"{[lay.tags[j] for j in lay.expected_key_tags(i)]}"))
@@ -382,6 +469,10 @@ class Runner:
                 return runner.body_val
         elif argnames == ["user"]:
             async def fn(user):
+                runner.body_ran = True
+                return runner.body_val
+        elif argnames == ["x"]:
+            async def fn(x):
                 runner.body_ran = True
                 return runner.body_val
         elif argnames == ["cols"]:
@@ -398,12 +489,51 @@ class Runner:
             raise HarnessError("unsupported signature")
         return cache(ttl=ttl_fn, key=key_tpl, tags=tuple(tag_tpls))(fn)
 
+    def _make_strategy_func(self, cache, full_tpl, tag_tpls, spec, ttl_fn, early_fn):
+        """a function decorated with one of the re-writing strategies; its body returns a fresh token at once"""
+        runner = self
+        kind = spec["kind"]
+        prefix = {"early": "early:v2:", "soft": "soft:", "hit": "hit:", "dynamic": "dynamic:"}[kind]
+        if prefix + spec["key"] != full_tpl:
+            raise HarnessError(f"layout {self.lay.name}: key template {full_tpl!r} is not {kind}'s {prefix + spec['key']!r}")
+
+        async def fn(x):
+            runner.body_ran = True
+            return runner.body_val
+
+        tags = tuple(tag_tpls)
+        if kind == "early":
+            return cache.early(ttl=ttl_fn, early_ttl=early_fn, key=spec["key"], tags=tags, background=spec["bg"])(fn)
+        if kind == "soft":
+            return cache.soft(ttl=ttl_fn, soft_ttl=spec["soft"] / 8, key=spec["key"], tags=tags)(fn)
+        if kind == "hit":
+            # update_after=0: no update; the entry is computed anew by the call after cache_hits hits
+            return cache.hit(ttl=spec["ttl"] / 8, cache_hits=spec["cache_hits"], update_after=spec["update_after"],
+                             key=spec["key"], tags=tags, background=spec["bg"])(fn)
+        if kind == "dynamic":
+            return cache.dynamic(ttl=spec["ttl"] / 8, key=spec["key"], tags=tags)(fn)
+        raise HarnessError(f"unknown decorator kind {kind}")
+
+    async def _drain(self):
+        """let the background tasks of a decorated call (early's recalculation and lock release, hit's update) finish
+        before the next command: the histories are sequential"""
+        loop = asyncio.get_running_loop()
+        ready = getattr(loop, "_ready", None)
+        if ready is None:  # pragma: no cover
+            raise HarnessError("cannot see the ready queue of the event loop")
+        for _ in range(60):
+            if not ready:       # nothing else is runnable: the tasks the call left behind have run to their end
+                return
+            await asyncio.sleep(0)
+        raise HarnessError("background tasks of a decorated call did not finish")
+
     # ---- bookkeeping of the harness's own log
     def _note_write(self, ki: int, tags: list[int]):
         self.last[ki] = list(tags)
         self.since[ki] = list(tags) + self.since[ki]
         self.ever[ki].update(tags)
         self.must_be_dead.pop(ki, None)
+        self.refreshed.pop(ki, None)
         exp = self.lay.expected_key_tags(ki)
         if any(t not in exp for t in tags):
             self.registered = False
@@ -411,6 +541,7 @@ class Runner:
     def _note_delete(self, ki: int, how: str = "delete"):
         self.since[ki] = []
         self.removed_by[ki] = how
+        self.refreshed.pop(ki, None)
 
     def _pre_write(self, ki: int, tags: list[int]):
         """snapshot (before a tagged write) of what the statistics need"""
@@ -500,6 +631,8 @@ class Runner:
                 if r == 0:
                     self._bump("tagged_incr_result_zero")
             return line, f"n={r}"
+        if op == "call" and lay.fspec[int(w[2])]["kind"] != "simple":
+            return await self._call_strategy(w, line)
         if op == "call":
             ki, fi, ttl = int(w[1]), int(w[2]), ttl_of(w[3])
             mut = w[4] if len(w) > 4 else "-"
@@ -581,6 +714,85 @@ class Runner:
             return await self._deltags(w, line)
         raise HarnessError(f"bad op {w}")
 
+    async def _call_strategy(self, w, line):
+        """a call of a function decorated with early / soft / hit / dynamic.  The model line leaves the decision (serve,
+        serve and recalculate, compute) to the model; the harness's own log takes it from what happened: the body ran
+        = the decorator wrote the key, with the tags rendered from this call's arguments."""
+        lay = self.lay
+        ki, fi = int(w[1]), int(w[2])
+        spec = lay.fspec[fi]
+        kind = spec["kind"]
+        if lay.keys[ki][1] != lay.funcs[fi][0]:
+            raise HarnessError(f"`{line}`: key {ki} is not a key of function {fi}")
+        if kind in ("hit", "dynamic"):
+            if w[3] != str(spec["ttl"]):
+                raise HarnessError(f"`{line}`: the ttl of a hit function is fixed ({spec['ttl']})")
+        ttl = ttl_of(w[3])
+        early = int(w[4]) if kind == "early" else None
+        if kind == "early" and early < 1:
+            raise HarnessError(f"`{line}`: early_ttl must be positive")
+        self._touch_stats(ki)
+        tags = lay.func_tags(fi, ki)
+        side = lay.side_key(fi, ki)
+        self.fresh += 1
+        self.body_val = f"t{self.fresh}"
+        self.body_ran = False
+        self.next_ttl = ttl
+        self.next_early = None if early is None else early / 8
+        snap = self._pre_write(ki, tags)
+        prev = self._readable(ki)
+        sets_before = {}
+        for t in tags:
+            ls = self._live_set(t)
+            sets_before[t] = "absent" if ls is None else ls[0]
+        r = await self.funcs[fi](lay.keys[ki][2]["x"])
+        await self._drain()
+        ran = self.body_ran
+        served = (not ran) or r != self.body_val
+        # what is compared with the model: served without running the body -> the cached value; body ran -> the value
+        # that was stored.  Which value a call that RE-WRITES returns (the entry it found or the fresh result) is the
+        # strategy's business, not C12's: it is left out.
+        out = ("v=" + show_val(r)) if not ran else ("vs=" + show_val(self.body_val))
+        tg = show_tags(tags)
+        if kind == "early":
+            mline = f"early {ki} {side} {self.fresh} {w[3]} {early} {tg}"
+        elif kind == "soft":
+            mline = f"soft {ki} {self.fresh} {w[3]} {spec['soft']} {tg}"
+        else:
+            mline = f"hit {ki} {side} {self.fresh} {w[3]} {tg} {spec['cache_hits']} {spec['update_after']}"
+        # the harness's own log
+        if kind in ("hit", "dynamic"):
+            self._note_write(side, tags)           # the counter is incremented, with the tags, by every call
+            self._bump("hit_counter_tagged_incr")
+        if served and ki in self.must_be_dead:
+            self._oracle_fail("complete", self.must_be_dead[ki], ki, f"`{line}` was served from the cache ({show_val(r)}) after delete_tags")
+        if ran:
+            if kind in ("hit", "dynamic"):
+                self._note_delete(side, "decorator")   # _get_and_save drops the counter ...
+            self._note_write(ki, tags)                 # ... and stores the result with the call's tags
+            self._post_write(snap, ttl)
+            if prev is None:
+                self._bump(f"{kind}_miss_tagged_write")
+            else:
+                self._bump("decorator_rewrites_live_entry")
+                self.refreshed[ki] = {"prev_dl": prev[0], "sets": sets_before}
+                if kind == "early":
+                    self._bump("early_recalculation_" + ("background" if spec["bg"] else "foreground"))
+                elif kind == "soft":
+                    self._bump("soft_recompute_after_soft_deadline")
+                elif served:
+                    self._bump(f"{kind}_update_at_update_after")
+                else:
+                    self._bump(f"{kind}_recompute_beyond_cache_hits")
+                new_dl = None if not ttl else CLOCK.t + ttl
+                if prev[0] is not None and (new_dl is None or new_dl > prev[0]):
+                    self._bump("rewrite_extends_key_deadline")
+                if prev[0] is not None and new_dl is not None and new_dl < prev[0]:
+                    self._bump("rewrite_shortens_key_deadline")
+        else:
+            self._bump(f"{kind}_served_from_cache")
+        return mline, out
+
     def _oracle_fail(self, clause: str, at: int, ki: int, what: str):
         self.oracle_failures.append({"clause": clause, "deltags_line": at, "key": ki, "key_name": self.lay.keys[ki][0], "what": what})
 
@@ -611,6 +823,18 @@ class Runner:
                     self._bump("deltags_persistent_set_finite_member")
             if carriers and len({tuple(self.last[k]) for k in carriers}) > 1:
                 self._bump("deltags_members_with_different_tag_lists")
+            for k in carriers:
+                rf = self.refreshed.get(k)
+                if rf is None:
+                    continue
+                self._bump("deltags_removes_key_rewritten_by_decorator")
+                if rf["prev_dl"] is not None and rf["prev_dl"] <= CLOCK.t:
+                    # the entry the decorator replaced would be gone by now: the key lives on the re-write's deadline
+                    self._bump("deltags_after_original_deadline_of_rewritten_key")
+                    sd = rf["sets"].get(t)
+                    if sd == "absent" or (sd is not None and sd <= CLOCK.t):
+                        # ... and so would the tag set, had the re-write not added the key again (or a later add)
+                        self._bump("deltags_tag_set_outlived_its_deadline_before_the_rewrite")
         if any(readable_before[k] and k in die for k in range(n)):
             self._bump("deltags_removes_live_key")
         recreated = [k for k in stay if readable_before[k] and any(t in self.ever[k] for t in tl)]
@@ -668,12 +892,18 @@ class Runner:
                 if round((CLOCK.t - start) * 8) != dt:
                     self.eff.append(("?clock", f"slept {dt} ticks but clock moved {(CLOCK.t - start) * 8}"))
                 continue
+            loop = asyncio.get_running_loop()
+            if hasattr(loop, "_spin"):
+                loop._spin = 0      # a command is not a sleep(0) spin: the virtual loop must not let a tick pass for it
+            t_before = CLOCK.t
             try:
                 mline, out = await self._exec(w)
             except HarnessError:
                 raise
             except Exception as exc:  # an exception the model does not know is itself a disagreement
                 mline, out = line, f"X:{type(exc).__name__}:{exc}"[:120]
+            if CLOCK.t != t_before:
+                raise HarnessError(f"the virtual clock moved during `{line}`")
             self.eff.append((mline, out))
         # which backend physically holds the tag sets (glue: prefix routing of '_tag:')
         data_has_sets = any(isinstance(k, str) and k.startswith("_tag:") for k in self.backend.store)
@@ -921,6 +1151,213 @@ def gen_history(rng, lay: Layout, maxlen: int, registered_only: bool = True) -> 
                 for ki in order:
                     ops.append(f"{rng.choice(['get', 'get', 'exists'])} {ki}")
     return ops
+
+
+# ---- the re-writing decorators (layout strat)
+
+STRAT_TTLS = ["16", "24", "24", "40", "800", "-"]
+STRAT_EARLY = [4, 8, 8, 12]
+STRAT_ADVS = [0, 1, 4, 5, 8, 9, 9, 12, 13, 16, 17, 24, 25, 40]
+
+
+def keys_of_func(lay: Layout, fi: int) -> list[int]:
+    return [ki for ki, (_, ti, _) in enumerate(lay.keys) if ti == lay.funcs[fi][0]]
+
+
+def gen_strat_call(rng, lay: Layout, ki: int, fi: int, ttl=None, early=None) -> str:
+    sp = lay.fspec[fi]
+    if sp["kind"] in ("hit", "dynamic"):
+        return f"call {ki} {fi} {sp['ttl']}"
+    ttl = ttl if ttl is not None else rng.choice(STRAT_TTLS)
+    if sp["kind"] == "early":
+        return f"call {ki} {fi} {ttl} {early if early is not None else rng.choice(STRAT_EARLY)}"
+    return f"call {ki} {fi} {ttl}"
+
+
+def probe_keys(lay: Layout) -> list[int]:
+    return [k for k in range(len(lay.keys)) if not lay.is_lock_key(k)]
+
+
+def gen_strat_history(rng, lay: Layout, maxlen: int) -> list[str]:
+    """random histories over the layout strat: calls of a few decorated functions (repeated, so that their re-write
+    paths are reached), time, direct tagged writes of the plain family, deletions of every kind, delete_tags + probes"""
+    n = rng.randint(3, maxlen)
+    nt = len(lay.tags)
+    focus = []
+    for _ in range(rng.randint(1, 3)):
+        fi = rng.randrange(len(lay.funcs))
+        focus.append((rng.choice(keys_of_func(lay, fi)), fi))
+    direct = lay.direct_keys()
+    pk = probe_keys(lay)
+    table = [("call", 40), ("adv", 24), ("deltags", 10), ("get", 5), ("exists", 2), ("delete", 5), ("delmany", 2),
+             ("delmatch", 3), ("set", 7), ("incr", 2)]
+    names, ws = zip(*table)
+    ops: list[str] = []
+    for _ in range(n):
+        op = rng.choices(names, ws)[0]
+        if op == "call":
+            ki, fi = rng.choice(focus)
+            if lay.fspec[fi]["kind"] == "simple":
+                ops.append(f"call {ki} {fi} {rng.choice(['8', '16', '24', '800'])}")
+            else:
+                ops.append(gen_strat_call(rng, lay, ki, fi))
+        elif op == "adv":
+            ops.append(f"adv {rng.choice(STRAT_ADVS)}")
+        elif op == "deltags":
+            ts = rng.sample(range(nt), rng.choice([1, 1, 1, 2]))
+            ops.append("deltags " + " ".join(map(str, ts)))
+            if rng.random() < 0.8:
+                order = list(pk)
+                rng.shuffle(order)
+                ops += [f"{rng.choice(['get', 'get', 'exists'])} {k}" for k in order]
+                if rng.random() < 0.5:
+                    ki, fi = rng.choice(focus)
+                    ops.append(gen_strat_call(rng, lay, ki, fi) if lay.fspec[fi]["kind"] != "simple" else f"call {ki} {fi} 800")
+        elif op == "get":
+            ops.append(f"get {rng.choice(pk)}")
+        elif op == "exists":
+            ops.append(f"exists {rng.choice(pk)}")
+        elif op == "delete":
+            ops.append(f"delete {rng.choice([k for k, _ in focus] + pk)}")
+        elif op == "delmany":
+            ops.append("delmany " + " ".join(str(rng.choice(pk)) for _ in range(rng.randint(1, 3))))
+        elif op == "delmatch":
+            ops.append(f"delmatch {gen_pattern(rng, lay)}")
+        elif op == "set":
+            ki = rng.choice(direct)
+            ops.append(f"set {ki} {rng.choice(VALS)} {rng.choice(TTLS)} a {gen_tags(rng, lay, ki, True)}")
+        else:
+            ki = rng.choice(direct)
+            ops.append(f"incr {ki} 1 {rng.choice(TTLS)} {gen_tags(rng, lay, ki, True)}")
+    return ops
+
+
+def gen_refresh(rng, lay: Layout) -> list[str]:
+    """directed at the re-write paths: a decorated function is called, time passes up to the point where its decorator
+    writes the live entry again (early: past early_ttl, in the foreground or in the background; soft: past soft_ttl;
+    hit / dynamic: update_after hits, more than cache_hits hits), maybe more than once and with another ttl; then time
+    passes to around the deadlines involved - the ORIGINAL deadline of the entry (and of its tag sets as first written) and
+    the deadline of the re-write -, then delete_tags of a tag of the call, probes and a further call.  Companions under
+    the same tags (direct writes of the plain family, other decorated functions with the same argument) are sometimes
+    there and sometimes not: without them only the re-write's own set_add keeps the tag set as long-lived as the key."""
+    fi = rng.choice(lay.strategy_funcs())
+    sp = lay.fspec[fi]
+    kind = sp["kind"]
+    ki = rng.choice(keys_of_func(lay, fi))
+    tags = lay.func_tags(fi, ki)
+    direct = lay.direct_keys()
+    pk = probe_keys(lay)
+    ops: list[str] = []
+
+    def light_noise():
+        out = []
+        for _ in range(rng.choice([0, 0, 0, 1, 2])):
+            c = rng.choice(["get", "exists", "set", "get_self", "other_call"])
+            if c == "get":
+                out.append(f"get {rng.choice(pk)}")
+            elif c == "exists":
+                out.append(f"exists {rng.choice(pk)}")
+            elif c == "get_self":
+                out.append(f"get {ki}")
+            elif c == "set":
+                ko = rng.choice(direct)
+                out.append(f"set {ko} {rng.choice(VALS)} {rng.choice(['8', '16', '24', '800', '-'])} a {gen_tags(rng, lay, ko, True)}")
+            else:
+                fo = rng.randrange(len(lay.funcs))
+                ko = rng.choice(keys_of_func(lay, fo))
+                if ko != ki:
+                    out.append(gen_strat_call(rng, lay, ko, fo) if lay.fspec[fo]["kind"] != "simple" else f"call {ko} {fo} {rng.choice(['8', '24', '800'])}")
+        return out
+
+    if rng.random() < 0.3:
+        ops += light_noise()
+    now = 0          # ticks since the first call (noise has no time advance)
+    if kind in ("early", "soft"):
+        T = rng.choice([16, 24, 24, 40, 800])
+        E = rng.choice(STRAT_EARLY) if kind == "early" else sp["soft"]
+        ops.append(gen_strat_call(rng, lay, ki, fi, ttl=T, early=E))
+        ops += light_noise()
+        deadlines = [T]
+        for _ in range(rng.choice([1, 1, 1, 2, 3])):
+            # into the window where the entry is still alive but due for its re-write (sometimes just outside)
+            lo = E + (1 if kind == "early" else 0)
+            hi = min(deadlines[-1] - now - 1, lo + 12)
+            a = rng.randint(lo, hi) if hi >= lo and rng.random() < 0.85 else rng.choice([max(lo - 1, 0), max(deadlines[-1] - now, 0), lo])
+            ops.append(f"adv {a}")
+            now += a
+            T2 = rng.choice([T, T, 16, 24, 40, 800])
+            E = rng.choice(STRAT_EARLY) if kind == "early" else sp["soft"]
+            ops.append(gen_strat_call(rng, lay, ki, fi, ttl=T2, early=E))
+            deadlines.append(now + T2)
+            ops += light_noise()
+        first, last = deadlines[0], deadlines[-1]
+    else:
+        T = sp["ttl"]
+        ncalls = rng.randint(2, sp["cache_hits"] + 3)
+        deadlines = [T]
+        for i in range(ncalls):
+            ops.append(gen_strat_call(rng, lay, ki, fi))
+            if i < ncalls - 1:
+                a = rng.choice([0, 0, 1, 4, 8, 9])
+                if a:
+                    ops.append(f"adv {a}")
+                    now += a
+                deadlines.append(now + T)
+            if rng.random() < 0.2:
+                ops += light_noise()
+        first, last = deadlines[0], deadlines[-1]
+    # around the deadlines: after the original one and before the last re-write's (the interesting window), or elsewhere
+    x = rng.random()
+    if x < 0.6 and last - 1 >= max(first, now):
+        target = rng.randint(max(first, now), last - 1)
+    elif x < 0.75:
+        target = rng.randint(now, max(now, first - 1))
+    elif x < 0.9:
+        target = rng.choice(deadlines + [first, last]) + rng.choice([-1, 0, 0, 1])
+    else:
+        target = last + rng.choice([0, 1, 8])
+    if target > now:
+        ops.append(f"adv {target - now}")
+    templated = [t for t, tt in zip(tags, lay.funcs[fi][1]) if "{" in tt]
+    t = rng.choice(templated) if templated and rng.random() < 0.75 else rng.choice(tags)
+    ops.append(f"deltags {t}")
+    order = list(pk)
+    rng.shuffle(order)
+    ops += [f"{rng.choice(['get', 'get', 'exists'])} {k}" for k in order]
+    if rng.random() < 0.6:
+        ops.append(gen_strat_call(rng, lay, ki, fi))
+        ops.append(f"get {ki}")
+    return ops
+
+
+def exhaustive_refresh_cases(lay: Layout, maxlen: int):
+    """third enumerated sub-space, on the decorators' re-writes: every history of 1..maxlen commands over calls of an early
+    function (foreground recalculation; ttl 3 s, early_ttl 1 s) and a soft function (ttl 3 s, soft_ttl 1 s) with the same
+    argument, a short-lived direct write under the same tag and time advances that land inside / outside the re-write
+    windows; each followed by delete_tags of the per-argument tag and probes of the three keys"""
+    fe = next(fi for fi, sp in enumerate(lay.fspec) if sp["kind"] == "early" and not sp["bg"])
+    fs = next(fi for fi, sp in enumerate(lay.fspec) if sp["kind"] == "soft")
+    ke, ks = keys_of_func(lay, fe)[0], keys_of_func(lay, fs)[0]
+    kp = lay.direct_keys()[0]
+    tg = lay.func_tags(fe, ke)[0]
+    if tg not in lay.func_tags(fs, ks) or tg not in lay.expected_key_tags(kp):
+        raise HarnessError("layout strat: the enumerated keys do not share their per-argument tag")
+    alphabet = [f"call {ke} {fe} 24 8", f"call {ks} {fs} 24", "adv 9", "adv 16", f"set {kp} t:1 8 a {tg}"]
+    tail = [f"deltags {tg}", f"get {ke}", f"get {ks}", f"get {kp}"]
+    out = []
+
+    def rec(prefix, depth):
+        if prefix:
+            out.append(list(prefix) + tail)
+        if depth == 0:
+            return
+        for a in alphabet:
+            prefix.append(a)
+            rec(prefix, depth - 1)
+            prefix.pop()
+
+    rec([], maxlen)
+    return out, len(alphabet)
 
 
 def gen_big(rng, lay: Layout) -> list[str]:
